@@ -263,6 +263,14 @@ pub fn run_c04(tier: Tier) -> ! {
             plans.push(Plan { label: format!("1p q{q} i{i}"), cfg, depth: tier.pick(8, 11), max_states: tier.pick(60_000, 1_000_000), secs: tier.pick(60.0, 2400.0) });
         }
     }
+    // token always late: the master only ever gets high-priority-only turns (the Global_Control broadcast is
+    // never sent); the outputs must still be the current image
+    for (q, i) in [(2usize, 1usize), (8, 0), (1, 9)] {
+        let acts = vec![Act::Answer, Act::ReplyLost, Act::UserWrite(0, 2), Act::UserWrite(0, 3), Act::InputChange(2), Act::Malformed(12), Act::Malformed(0)];
+        let mut cfg = base_cfg(vec![PeriphCfg::simple(9, i, q)], Mon::C04, acts);
+        cfg.high_prio = true;
+        plans.push(Plan { label: format!("1p q{q} i{i} high-priority-only turns"), cfg, depth: tier.pick(8, 11), max_states: tier.pick(60_000, 1_000_000), secs: tier.pick(60.0, 2400.0) });
+    }
     // two / three peripherals: images of the other peripherals must stay untouched
     {
         let acts = vec![Act::Answer, Act::ReplyLost, Act::UserWrite(0, 2), Act::UserWrite(1, 3), Act::InputChange(2), Act::Malformed(12), Act::Malformed(14), Act::Malformed(0), Act::Malformed(8)];
